@@ -43,6 +43,8 @@ PROFILES = [
     Profile(n_exchanges=4, n_holders=1, p_intra=0.4, max_events=22, min_events=5),
     Profile(n_exchanges=3, n_holders=2, p_intra=0.3, tie_prob=0.4, mixed_tz=True, max_events=20, min_events=5),
     Profile(n_exchanges=2, n_holders=2, p_intra=0.3, amount_style="dec11", max_events=26, min_events=8),
+    # buy and hold: an asset without a single taxable event
+    Profile(n_exchanges=3, n_holders=2, max_events=12, min_events=4, p_in=0.6, p_out=0.0, p_intra=0.4, p_earn=0.0, p_intra_fee=0.0),
     # exchange-supplied totals (crypto_out_with_fee), half of them the exchange's own rounded figure: what leaves the account is
     # amount + fee whatever that cell says (the lots follow the cell, so the reconciliation clause is skipped for these)
     Profile(n_exchanges=3, n_holders=1, p_intra=0.25, p_optional_fiat=0.8, p_rounded_out_total=0.5, out_types=("SELL", "FEE", "FEE", "GIFT"), max_events=18, min_events=6),
